@@ -3,6 +3,7 @@ package rrsim
 import (
 	"context"
 	"fmt"
+	"github.com/vulcand/oxy/v2/utils"
 	"net/http"
 	"net/url"
 	"sort"
@@ -126,24 +127,25 @@ func gcd(a, b int) int {
 
 // one observed operation
 type rrOp struct {
-	kind    string // upsert, remove, next, serve, servers, weight
-	key     string
-	hasW    bool
-	w       int
-	call    uint64
-	ret     uint64
-	err     bool
-	outKey  string   // next/serve: selected key
-	outKeys []string // servers
-	outW    int
-	outOK   bool
-	selSeq  uint64 // seq of the critical section that made the selection
-	status  int
-	invoked bool // serve: downstream handler ran
-	task    *simrt.Task
-	done    bool
-	sticky  bool
-	u       *url.URL
+	ownMarks int    // how often the caller's error handler answered this request
+	kind     string // upsert, remove, next, serve, servers, weight
+	key      string
+	hasW     bool
+	w        int
+	call     uint64
+	ret      uint64
+	err      bool
+	outKey   string   // next/serve: selected key
+	outKeys  []string // servers
+	outW     int
+	outOK    bool
+	selSeq   uint64 // seq of the critical section that made the selection
+	status   int
+	invoked  bool // serve: downstream handler ran
+	task     *simrt.Task
+	done     bool
+	sticky   bool
+	u        *url.URL
 }
 
 func (op *rrOp) url() *url.URL { return op.u }
@@ -156,16 +158,17 @@ func (neverReady) IsReady() bool             { return false }
 
 // rrWorld is one balancer (optionally under a rebalancer that never adjusts)
 type rrWorld struct {
-	r         *simkit.Run
-	sim       *simrt.Sim
-	rr        *roundrobin.RoundRobin
-	rb        *roundrobin.Rebalancer
-	viaRB     bool
-	sticky    bool
-	model     pool
-	ops       []*rrOp
-	mutations int
-	failMeter bool // the next meter the rebalancer asks for cannot be built
+	r             *simkit.Run
+	sim           *simrt.Sim
+	rr            *roundrobin.RoundRobin
+	rb            *roundrobin.Rebalancer
+	viaRB         bool
+	sticky        bool
+	ownErrHandler bool
+	model         pool
+	ops           []*rrOp
+	mutations     int
+	failMeter     bool // the next meter the rebalancer asks for cannot be built
 }
 
 func (w *rrWorld) admin() interface {
@@ -227,6 +230,16 @@ func newRRWorld(r *simkit.Run, viaRB, sticky, fine bool) *rrWorld {
 	if slow {
 		opts = append(opts, roundrobin.Logger(simkit.SlowLogger{}), roundrobin.Verbose(rapid.Bool().Draw(r.T, "verbose")))
 	}
+	// by draw the balancers are built with the caller's own error handler: the default mapping plus a mark that
+	// proves the configured handler (once, and not the built-in one) answered a request that could not be routed
+	w.ownErrHandler = rapid.IntRange(0, 2).Draw(r.T, "own-error-handler") == 0
+	ownHandler := utils.ErrorHandlerFunc(func(rw http.ResponseWriter, req *http.Request, err error) {
+		rw.Header().Add("X-Own-Err-Handler", "1")
+		utils.DefaultHandler.ServeHTTP(rw, req, err)
+	})
+	if w.ownErrHandler {
+		opts = append(opts, roundrobin.ErrorHandler(ownHandler))
+	}
 	if sticky && !viaRB {
 		opts = append(opts, roundrobin.EnableStickySession(roundrobin.NewStickySession("aff")))
 	}
@@ -245,6 +258,9 @@ func newRRWorld(r *simkit.Run, viaRB, sticky, fine bool) *rrWorld {
 		})}
 		if sticky {
 			ropts = append(ropts, roundrobin.RebalancerStickySession(roundrobin.NewStickySession("aff")))
+		}
+		if w.ownErrHandler {
+			ropts = append(ropts, roundrobin.RebalancerErrorHandler(ownHandler))
 		}
 		if slow {
 			ropts = append(ropts, roundrobin.RebalancerLogger(simkit.SlowLogger{}), roundrobin.RebalancerDebug(rapid.Bool().Draw(r.T, "debug")))
@@ -363,6 +379,7 @@ func (w *rrWorld) opServe(mut int, cookie string) *rrOp {
 	return w.spawn(op, func() {
 		w.handler().ServeHTTP(rec, req)
 		op.status = rec.Status
+		op.ownMarks = len(rec.Snapshot.Values("X-Own-Err-Handler"))
 		if !op.invoked {
 			op.err = true
 			op.selSeq = op.task.LastAcq
